@@ -225,4 +225,63 @@ theorem wf_uniform (n : Nat) : WF n (uniformEntries n : List (Entry K)) := by
     obtain ⟨i, hi, rfl⟩ := List.mem_map.mp he
     exact List.mem_range.mp hi
 
+/-! ### ExtractDistrust commutes with positive row scaling -/
+
+theorem splitRow_scale [IsStrictOrderedRing K] (r : Row K) {c : K} (hc : 0 < c) :
+    splitRow (r.map fun e => (⟨e.idx, c * e.val⟩ : Entry K))
+      = ((splitRow r).1.map (fun e => ⟨e.idx, c * e.val⟩),
+         (splitRow r).2.map (fun e => ⟨e.idx, c * e.val⟩)) := by
+  induction r with
+  | nil => rfl
+  | cons e r ih =>
+    have hiff : 0 ≤ c * e.val ↔ 0 ≤ e.val := by
+      constructor
+      · intro h; exact nonneg_of_mul_nonneg_right h hc
+      · intro h; exact mul_nonneg hc.le h
+    simp only [splitRow, Scalar.ge, s_le, s_zero, s_neg, List.map_cons, List.filter_cons,
+      Prod.mk.injEq] at ih ⊢
+    by_cases h : 0 ≤ e.val
+    · have h' := hiff.mpr h
+      simp only [h, h', decide_true, if_true, Bool.not_true, Bool.false_eq_true, if_false,
+        List.map_cons, ih.1, ih.2, and_self]
+    · have h' : ¬ 0 ≤ c * e.val := fun x => h (hiff.mp x)
+      simp only [h, h', decide_false, Bool.false_eq_true, if_false, Bool.not_false, if_true,
+        List.map_cons, ih.1, ih.2, true_and, mul_neg]
+
+theorem map_splitRow_scale_fst [IsStrictOrderedRing K] (s : Nat → K) (hs : ∀ i, 0 < s i)
+    (rows : List (Row K)) (k : Nat) :
+    ((((rows.zipIdx k).map fun p => p.1.map fun e => (⟨e.idx, s p.2 * e.val⟩ : Entry K)).map
+        splitRow).map (·.1))
+      = (((rows.map splitRow).map (·.1)).zipIdx k).map
+          fun p => p.1.map fun e => (⟨e.idx, s p.2 * e.val⟩ : Entry K) := by
+  induction rows generalizing k with
+  | nil => rfl
+  | cons r rows ih =>
+    simp only [List.zipIdx_cons, List.map_cons, ih (k + 1), splitRow_scale r (hs k)]
+
+theorem map_splitRow_scale_snd [IsStrictOrderedRing K] (s : Nat → K) (hs : ∀ i, 0 < s i)
+    (rows : List (Row K)) (k : Nat) :
+    ((((rows.zipIdx k).map fun p => p.1.map fun e => (⟨e.idx, s p.2 * e.val⟩ : Entry K)).map
+        splitRow).map (·.2))
+      = (((rows.map splitRow).map (·.2)).zipIdx k).map
+          fun p => p.1.map fun e => (⟨e.idx, s p.2 * e.val⟩ : Entry K) := by
+  induction rows generalizing k with
+  | nil => rfl
+  | cons r rows ih =>
+    simp only [List.zipIdx_cons, List.map_cons, ih (k + 1), splitRow_scale r (hs k)]
+
+/-- `ExtractDistrust` of a row-scaled matrix is the row-scaled result (positive factors). -/
+theorem extractDistrust_scaleRows [IsStrictOrderedRing K] (s : Nat → K) (hs : ∀ i, 0 < s i)
+    (L : CSM K) :
+    extractDistrust (scaleRows s L)
+      = (extractDistrust L).map fun PD => (scaleRows s PD.1, scaleRows s PD.2) := by
+  unfold extractDistrust CSM.dim
+  by_cases hd : L.major = L.minor
+  · have hd' : (scaleRows s L).major = (scaleRows s L).minor := hd
+    rw [if_neg (by simpa using hd'), if_neg (by simpa using hd)]
+    simp only [Except.map, scaleRows, map_splitRow_scale_fst s hs, map_splitRow_scale_snd s hs]
+  · have hd' : (scaleRows s L).major ≠ (scaleRows s L).minor := hd
+    rw [if_pos hd', if_pos hd]
+    rfl
+
 end EtVerif.Canon
